@@ -202,27 +202,38 @@ Proof.
     + exfalso; eapply nth_error_nil; eauto.
 Qed.
 
+Lemma assign_one_length : forall pws wg refs m pws' wg' refs',
+  assign_one cfg (pws,wg,refs) m = (pws',wg',refs') -> length pws <= length pws'.
+Proof.
+  intros pws wg refs m pws' wg' refs' E.
+  destruct (assign_one_spec _ _ _ _ _ _ _ E) as (p & k & pw & pw' & sp & pws0 & -> & _ & _ & _ & H0 & _ & ->).
+  rewrite upd_length. destruct H0 as [->| ->]; rewrite ?app_length; simpl; lia.
+Qed.
+
 Section AssignAll.
 Variable P : nat -> pwriter -> Prop.
-Hypothesis Pnew : forall p tp, P p (new_pw tp).
+Variable n0 : nat.
+Hypothesis Pnew : forall p tp, n0 <= p -> P p (new_pw tp).
 Hypothesis Padd : forall p pw m pw' k sp, P p pw -> pw_open pw = true -> pw_add cfg pw m = (pw',k,sp) -> P p pw'.
 
 Lemma assign_one_allpw : forall pws wg refs m pws' wg' refs',
-  assign_one cfg (pws,wg,refs) m = (pws',wg',refs') -> allpw P pws -> allpw P pws'.
+  assign_one cfg (pws,wg,refs) m = (pws',wg',refs') -> n0 <= length pws -> allpw P pws -> allpw P pws'.
 Proof.
-  intros pws wg refs m pws' wg' refs' H A.
+  intros pws wg refs m pws' wg' refs' H Hn A.
   destruct (assign_one_spec _ _ _ _ _ _ _ H) as (p & k & pw & pw' & sp & pws0 & -> & Hadd & Ho & Ht & H0 & Hnth & ->).
   assert (A0 : allpw P pws0) by (destruct H0 as [->| ->]; [auto|apply allpw_snoc; auto]).
   apply allpw_upd; auto. eapply Padd; [apply A0; exact Hnth|exact Ho|exact Hadd].
 Qed.
 
 Lemma fold_assign_allpw : forall ms pws wg refs pws' wg' refs',
-  fold_left (assign_one cfg) ms (pws,wg,refs) = (pws',wg',refs') -> allpw P pws -> allpw P pws'.
+  fold_left (assign_one cfg) ms (pws,wg,refs) = (pws',wg',refs') -> n0 <= length pws -> allpw P pws -> allpw P pws'.
 Proof.
-  induction ms; intros pws wg refs pws' wg' refs' H A; cbn [fold_left] in H.
+  induction ms; intros pws wg refs pws' wg' refs' H Hn A; cbn [fold_left] in H.
   - inv H; auto.
   - destruct (assign_one cfg (pws,wg,refs) a) as [[pws1 wg1] refs1] eqn:E.
-    eapply IHms; eauto. eapply assign_one_allpw; eauto.
+    eapply IHms; eauto.
+    + apply assign_one_length in E. lia.
+    + eapply assign_one_allpw; eauto.
 Qed.
 End AssignAll.
 
@@ -503,7 +514,7 @@ Proof.
   { intros i r Hi. destruct i; discriminate. }
   simpl in Lr, Rr.
   assert (A' : allpw (fun _ pw => pw_wf pw /\ Dp J pw) pws').
-  { eapply (fold_assign_allpw (fun _ pw => pw_wf pw /\ Dp J pw)); [| |exact E|apply I].
+  { eapply (fold_assign_allpw (fun _ pw => pw_wf pw /\ Dp J pw) 0); [| |exact E|lia|apply I].
     - intros; apply P1_new.
     - intros; eapply P1_add; eauto. }
   pose proof (Inv1_pws _ _ _ _ _ I Le A') as I'.
@@ -620,6 +631,639 @@ Lemma inv1_runs : forall ls s, runs cfg ls s -> inv1 s.
 Proof. apply runs_inv; [apply inv1_init|apply inv1_step]. Qed.
 
 
+(* ------------------------------------------------------------------ layer 2 *)
+Lemma NoDup_app_disj : forall A (l1 l2 : list A) x, NoDup (l1 ++ l2) -> In x l1 -> In x l2 -> False.
+Proof.
+  induction l1; simpl; intros l2 x N H1 H2; [contradiction|]. inv N. destruct H1 as [->|H1].
+  - apply H3. apply in_app_iff; auto.
+  - eapply IHl1; eauto.
+Qed.
+
+Lemma NoDup_app_inv : forall A (l1 l2 : list A), NoDup (l1 ++ l2) -> NoDup l1 /\ NoDup l2.
+Proof.
+  induction l1; simpl; intros l2 N; [split; [constructor|auto]|]. inv N.
+  destruct (IHl1 _ H2). split; auto. constructor; auto. rewrite in_app_iff in H1. auto.
+Qed.
+
+Lemma NoDup_app_intro : forall A (l1 l2 : list A), NoDup l1 -> NoDup l2 ->
+  (forall x, In x l2 -> ~ In x l1) -> NoDup (l1 ++ l2).
+Proof.
+  induction l1; simpl; intros l2 N1 N2 H; auto. inv N1. constructor.
+  - rewrite in_app_iff. intros [Hi|Hi]; auto. apply (H _ Hi). simpl; auto.
+  - apply IHl1; auto. intros x Hx Hx1. apply (H _ Hx). simpl; auto.
+Qed.
+
+Lemma nodup_map_app_neq : forall A (f : A -> nat) l1 l2 x y,
+  NoDup (map f (l1 ++ l2)) -> In x l1 -> In y l2 -> f x <> f y.
+Proof.
+  intros A f l1 l2 x y N Hx Hy E. rewrite map_app in N.
+  eapply NoDup_app_disj; [exact N|apply in_map; exact Hx|rewrite E; apply in_map; exact Hy].
+Qed.
+
+Definition fs (pw : pwriter) : list batch :=
+  map fst (pw_fin pw) ++ opt_list (option_map sd_batch (pw_snd pw)).
+
+Lemma fs_all : forall pw b, In b (fs pw) -> In b (pw_all pw).
+Proof. unfold fs, pw_all; intros pw b H. rewrite app_assoc. apply in_app_iff; auto. Qed.
+
+Definition noack (J : list attempt) (p k : nat) : Prop :=
+  forall a, In a J -> a_pw a = p -> a_k a = k -> a_seen a <> None.
+
+Definition outcome (J : list attempt) (p k : nat) (o : option err) : Prop :=
+  (exists j1 a j2, J = j1 ++ a :: j2 /\ a_pw a = p /\ a_k a = k /\ a_seen a = o /\
+     forall a', In a' j2 -> ~ (a_pw a' = p /\ a_k a' = k)) /\
+  (forall e, o = Some e -> noack J p k).
+
+Lemma noack_snoc : forall J p k a, noack J p k ->
+  (a_pw a = p -> a_k a = k -> a_seen a <> None) -> noack (J ++ [a]) p k.
+Proof.
+  intros J p k a N H a' Ha. apply in_app_iff in Ha. destruct Ha as [Ha|[<-|[]]]; auto.
+Qed.
+
+Lemma outcome_snoc : forall J p k o a, outcome J p k o -> ~ (a_pw a = p /\ a_k a = k) ->
+  outcome (J ++ [a]) p k o.
+Proof.
+  intros J p k o a [(j1 & a0 & j2 & -> & H1 & H2 & H3 & H4) N] Hn. split.
+  - exists j1, a0, (j2 ++ [a]). rewrite <- app_assoc. simpl. repeat split; auto.
+    intros a' Ha. apply in_app_iff in Ha. destruct Ha as [Ha|[<-|[]]]; auto.
+  - intros e He. apply noack_snoc; [eapply N; eauto|intros; exfalso; auto].
+Qed.
+
+Definition Op (J : list attempt) (p : nat) (pw : pwriter) : Prop :=
+  (forall b o, In (b,o) (pw_fin pw) -> outcome J p (b_k b) o) /\
+  (forall b n ph, pw_snd pw = Some (mkSnd b n ph) ->
+     match ph with PFinish o => outcome J p (b_k b) o | _ => noack J p (b_k b) end) /\
+  (forall a, In a J -> a_pw a = p ->
+     exists b, In b (fs pw) /\ b_k b = a_k a /\ a_msgs a = b_msgs b /\ a_tp a = pw_tp pw).
+
+Lemma Op_sim : forall J p pw pw', pw_tp pw' = pw_tp pw -> pw_fin pw' = pw_fin pw -> pw_snd pw' = pw_snd pw ->
+  Op J p pw -> Op J p pw'.
+Proof. intros J p pw pw' T F S (O1 & O2 & O3). unfold Op, fs. rewrite T, F, S. auto. Qed.
+
+Definition owned (calls : list call) (p k : nat) (m : msg) : Prop :=
+  exists c cl i, nth_error calls c = Some cl /\ nth_error (c_msgs cl) i = Some m /\
+                 nth_error (c_refs cl) i = Some (p,k).
+
+Definition OwnF (calls : list call) (done : list msg) (refs : list (nat*nat)) (p : nat) (pw : pwriter) : Prop :=
+  forall b m, In b (pw_all pw) -> In m (b_msgs b) ->
+    owned calls p (b_k b) m \/ (exists i, nth_error done i = Some m /\ nth_error refs i = Some (p, b_k b)).
+
+Definition Own (calls : list call) (p : nat) (pw : pwriter) : Prop :=
+  forall b m, In b (pw_all pw) -> In m (b_msgs b) -> owned calls p (b_k b) m.
+
+Definition Jdom (pws : list pwriter) (J : list attempt) : Prop := forall a, In a J -> a_pw a < length pws.
+
+Definition Inv2 (pws : list pwriter) (calls : list call) (J : list attempt) : Prop :=
+  allpw (Op J) pws /\ Jdom pws J /\ allpw (Own calls) pws /\ NoDup (used_ids calls).
+
+Lemma ids_unique : forall cs c1 c2 cl1 cl2 i1 i2 m1 m2, NoDup (used_ids cs) ->
+  nth_error cs c1 = Some cl1 -> nth_error cs c2 = Some cl2 ->
+  nth_error (c_msgs cl1) i1 = Some m1 -> nth_error (c_msgs cl2) i2 = Some m2 ->
+  m_id m1 = m_id m2 -> c1 = c2 /\ i1 = i2.
+Proof.
+  unfold used_ids. induction cs as [|a cs IH]; intros c1 c2 cl1 cl2 i1 i2 m1 m2 N H1 H2 M1 M2 E.
+  - exfalso; eapply nth_error_nil; eauto.
+  - simpl in N.
+    assert (Hin : forall c cl i m, nth_error cs c = Some cl -> nth_error (c_msgs cl) i = Some m ->
+              In (m_id m) (flat_map (fun c => map m_id (c_msgs c)) cs)).
+    { intros c cl i m Hc Hm. apply in_flat_map. exists cl. split; [eapply nth_error_In; eauto|].
+      apply in_map. eapply nth_error_In; eauto. }
+    destruct c1 as [|c1], c2 as [|c2]; simpl in H1, H2.
+    + inv H1. inv H2. split; auto. apply NoDup_app_inv in N. destruct N as [N _].
+      rewrite NoDup_nth_error in N. apply N.
+      * rewrite map_length. apply nth_error_Some. congruence.
+      * rewrite (map_nth_error _ _ _ M1), (map_nth_error _ _ _ M2). congruence.
+    + inv H1. exfalso. eapply NoDup_app_disj; [exact N| |eapply Hin; eauto].
+      rewrite <- E. apply in_map. eapply nth_error_In; eauto.
+    + inv H2. exfalso. eapply NoDup_app_disj; [exact N| |eapply Hin; eauto].
+      rewrite E. apply in_map. eapply nth_error_In; eauto.
+    + apply NoDup_app_inv in N. destruct N as [_ N]. destruct (IH _ _ _ _ _ _ _ _ N H1 H2 M1 M2 E). split; auto.
+Qed.
+
+(* a message (id) is in one batch only *)
+Lemma one_batch : forall pws calls p1 pw1 b1 m1 p2 pw2 b2 m2,
+  allpw (Own calls) pws -> NoDup (used_ids calls) ->
+  nth_error pws p1 = Some pw1 -> In b1 (pw_all pw1) -> In m1 (b_msgs b1) ->
+  nth_error pws p2 = Some pw2 -> In b2 (pw_all pw2) -> In m2 (b_msgs b2) ->
+  m_id m1 = m_id m2 -> p1 = p2 /\ b_k b1 = b_k b2.
+Proof.
+  intros pws calls p1 pw1 b1 m1 p2 pw2 b2 m2 O N P1 B1 M1 P2 B2 M2 E.
+  destruct (O _ _ P1 _ _ B1 M1) as (c1 & cl1 & i1 & C1 & X1 & R1).
+  destruct (O _ _ P2 _ _ B2 M2) as (c2 & cl2 & i2 & C2 & X2 & R2).
+  destruct (ids_unique _ _ _ _ _ _ _ _ _ N C1 C2 X1 X2 E) as [-> ->].
+  rewrite C1 in C2. inv C2. rewrite R1 in R2. inv R2. auto.
+Qed.
+
+Lemma assign_one_own : forall calls pws wg refs m pws' wg' refs' done,
+  assign_one cfg (pws,wg,refs) m = (pws',wg',refs') -> length refs = length done ->
+  allpw (OwnF calls done refs) pws -> allpw (OwnF calls (done ++ [m]) refs') pws'.
+Proof.
+  intros calls pws wg refs m pws' wg' refs' done H Hl A.
+  destruct (assign_one_spec _ _ _ _ _ _ _ H) as (p & k & pw & pw' & sp & pws0 & -> & Hadd & Ho & Ht & H0 & Hnth & ->).
+  assert (A0 : allpw (OwnF calls done refs) pws0).
+  { destruct H0 as [->| ->]; auto. apply allpw_snoc; auto. intros b x Hb. simpl in Hb. contradiction. }
+  assert (Wk : forall q pwq, OwnF calls done refs q pwq -> OwnF calls (done ++ [m]) (refs ++ [(p,k)]) q pwq).
+  { intros q pwq O b x Hb Hx. destruct (O b x Hb Hx) as [?|(i & Hi1 & Hi2)]; auto. right. exists i.
+    split; rewrite nth_error_app1; auto; apply nth_error_Some; congruence. }
+  apply allpw_upd; [intros q pwq Hq; apply Wk; apply A0; auto|].
+  pose proof (Wk _ _ (A0 _ _ Hnth)) as O.
+  assert (New : exists i, nth_error (done ++ [m]) i = Some m /\ nth_error (refs ++ [(p,k)]) i = Some (p,k)).
+  { exists (length done). rewrite nth_error_app2, Nat.sub_diag by lia. rewrite nth_error_app2 by lia.
+    replace (length done - length refs) with 0 by lia. simpl. auto. }
+  destruct (pw_add_spec _ _ _ _ _ Hadd Ho) as (_ & _ & _ & _ & [(l & b & E1 & E2 & Ek & En)|(E2 & Ek & En)]).
+  - intros b' x Hb Hx. rewrite E2 in Hb. apply in_app_iff in Hb. destruct Hb as [Hb|[<-|[]]].
+    + apply O; auto. rewrite E1. apply in_app_iff; auto.
+    + simpl in Hx. apply in_app_iff in Hx. simpl. destruct Hx as [Hx|[<-|[]]].
+      * apply (O b x); auto. rewrite E1. apply in_app_iff; simpl; auto.
+      * right. subst k. exact New.
+  - intros b' x Hb Hx. rewrite E2 in Hb. apply in_app_iff in Hb. destruct Hb as [Hb|[<-|[]]].
+    + apply O; auto.
+    + simpl in Hx. destruct Hx as [<-|[]]. simpl. right. subst k. exact New.
+Qed.
+
+Lemma fold_assign_own : forall calls ms pws wg refs pws' wg' refs' done,
+  fold_left (assign_one cfg) ms (pws,wg,refs) = (pws',wg',refs') -> length refs = length done ->
+  allpw (OwnF calls done refs) pws ->
+  allpw (OwnF calls (done ++ ms) refs') pws' /\ length pws <= length pws'.
+Proof.
+  induction ms; intros pws wg refs pws' wg' refs' done H Hl A; cbn [fold_left] in H.
+  - inv H. rewrite app_nil_r. auto.
+  - destruct (assign_one cfg (pws,wg,refs) a) as [[pws1 wg1] refs1] eqn:E.
+    pose proof (assign_one_own _ _ _ _ _ _ _ _ _ E Hl A) as A1.
+    assert (L1 : length refs1 = length (done ++ [a]) /\ length pws <= length pws1).
+    { destruct (assign_one_spec _ _ _ _ _ _ _ E) as (p & k & pw & pw' & sp & pws0 & -> & _ & _ & _ & H0 & _ & ->).
+      rewrite !app_length, upd_length. simpl. destruct H0 as [->| ->]; rewrite ?app_length; simpl; lia. }
+    destruct L1 as [L1 L1'].
+    destruct (IHms _ _ _ _ _ _ _ H L1 A1) as [A2 L2]. rewrite <- app_assoc in A2. simpl in A2.
+    split; auto. lia.
+Qed.
+
+Lemma fin_other_neq : forall pw b' o b,
+  pw_wf pw -> In (b',o) (pw_fin pw) ->
+  In b (opt_list (option_map sd_batch (pw_snd pw)) ++ pw_queue pw ++ opt_list (pw_curr pw)) ->
+  b_k b' <> b_k b.
+Proof.
+  intros pw b' o b (W1 & W2 & W3) Hf Hb. unfold pw_all in W2.
+  eapply nodup_map_app_neq; [exact W2| |exact Hb]. apply in_map_iff. exists (b', o); auto.
+Qed.
+
+Lemma Op_snoc_other : forall J p pw a, Op J p pw -> a_pw a <> p -> Op (J ++ [a]) p pw.
+Proof.
+  intros J p pw a (O1 & O2 & O3) Hne. split; [|split].
+  - intros b o Hb. apply outcome_snoc; auto. intros [? _]; auto.
+  - intros b n ph Hs. specialize (O2 _ _ _ Hs).
+    destruct ph; try (apply noack_snoc; auto; intros; exfalso; auto).
+    apply outcome_snoc; auto. intros [? _]; auto.
+  - intros a' Ha Hp. apply in_app_iff in Ha. destruct Ha as [Ha|[<-|[]]]; auto. exfalso; auto.
+Qed.
+
+Lemma Op_attempt_self : forall J p pw b n r, pw_wf pw -> Op J p pw -> pw_snd pw = Some (mkSnd b n PAttempt) ->
+  Op (J ++ [mkAtt p (b_k b) (pw_tp pw) (b_msgs b) (r_applied r) (r_seen r)]) p
+     (set_snd pw (Some (mkSnd b (S n) (after_attempt cfg n (r_seen r))))).
+Proof.
+  intros J p pw b n r W (O1 & O2 & O3) Hs.
+  pose proof (O2 _ _ _ Hs) as Nk. simpl in Nk.
+  split; [|split]; simpl.
+  - intros b' o Hb. apply outcome_snoc; auto. simpl. intros [_ Hk].
+    eapply (fin_other_neq pw b' o b); eauto. rewrite Hs. simpl. auto.
+  - intros b0 n0 ph E. inv E. destruct (r_seen r) as [e|] eqn:Er; simpl.
+    + destruct (retriable cfg e); [destruct (S n <? maxAttempts cfg)|].
+      * apply noack_snoc; auto. simpl. intros; discriminate.
+      * split.
+        -- eexists J, _, []. split; [reflexivity|]. simpl. repeat split; auto.
+        -- intros e' _. apply noack_snoc; auto. simpl. intros; discriminate.
+      * split.
+        -- eexists J, _, []. split; [reflexivity|]. simpl. repeat split; auto.
+        -- intros e' _. apply noack_snoc; auto. simpl. intros; discriminate.
+    + split.
+      * eexists J, _, []. split; [reflexivity|]. simpl. repeat split; auto.
+      * intros; discriminate.
+  - intros a' Ha Hp. apply in_app_iff in Ha. destruct Ha as [Ha|[<-|[]]].
+    + destruct (O3 _ Ha Hp) as (b0 & Hb0 & R). exists b0. split; auto.
+      unfold fs in *. simpl. rewrite Hs in Hb0. exact Hb0.
+    + exists b. simpl. split; auto. unfold fs. simpl. apply in_app_iff. simpl. auto.
+Qed.
+
+Lemma Inv2_upd_gen : forall pws calls J p pw pw',
+  Inv2 pws calls J -> nth_error pws p = Some pw -> pw_all pw' = pw_all pw -> Op J p pw' ->
+  Inv2 (upd pws p pw') calls J.
+Proof.
+  intros pws calls J p pw pw' (O & D & W & N) Hn Ha Hop.
+  split; [apply allpw_upd; auto|]. split; [intros a Hin; rewrite upd_length; auto|]. split; auto.
+  apply allpw_upd; auto. intros b m Hb Hm. rewrite Ha in Hb. eapply W; eauto.
+Qed.
+
+Lemma Inv2_calls : forall pws calls J calls', Inv2 pws calls J ->
+  (forall p k m, owned calls p k m -> owned calls' p k m) -> NoDup (used_ids calls') -> Inv2 pws calls' J.
+Proof.
+  intros pws calls J calls' (O & D & W & N) He Nd. split; auto. split; auto. split; auto.
+  intros p pw Hp b m Hb Hm. apply He. eapply W; eauto.
+Qed.
+
+Lemma used_ids_upd : forall cs c cl cl', nth_error cs c = Some cl -> c_msgs cl' = c_msgs cl ->
+  used_ids (upd cs c cl') = used_ids cs.
+Proof.
+  unfold used_ids; induction cs; destruct c; simpl; intros cl cl' H E; try discriminate.
+  - inv H. rewrite E; auto.
+  - f_equal; eauto.
+Qed.
+
+Lemma owned_upd : forall calls c cl cl' p k m, nth_error calls c = Some cl ->
+  c_msgs cl' = c_msgs cl -> c_refs cl' = c_refs cl -> owned calls p k m -> owned (upd calls c cl') p k m.
+Proof.
+  intros calls c cl cl' p k m H E1 E2 (c0 & cl0 & i & H1 & H2 & H3). destruct (Nat.eq_dec c c0) as [<-|Ne].
+  - exists c, cl', i. rewrite nth_error_upd_eq by (apply nth_error_Some; congruence).
+    rewrite H in H1; inv H1. rewrite E1, E2. auto.
+  - exists c0, cl0, i. rewrite nth_error_upd_neq by auto. auto.
+Qed.
+
+Lemma owned_snoc : forall calls x p k m, owned calls p k m -> owned (calls ++ [x]) p k m.
+Proof.
+  intros calls x p k m (c0 & cl0 & i & H1 & H2 & H3). exists c0, cl0, i.
+  rewrite nth_error_app1 by (apply nth_error_Some; congruence). auto.
+Qed.
+
+Lemma nodupb_NoDup : forall l, nodupb l = true -> NoDup l.
+Proof.
+  induction l; simpl; intros H; [constructor|]. apply andb_true_iff in H. destruct H as [H1 H2].
+  constructor; auto. intros Hin. apply negb_true_iff in H1.
+  assert (existsb (N.eqb a) l = true) by (apply existsb_exists; exists a; split; auto; apply N.eqb_refl).
+  congruence.
+Qed.
+
+Lemma admissible_nodup : forall s g msgs ph, call_admissible s g msgs = true ->
+  NoDup (used_ids (s_calls s)) -> NoDup (used_ids (s_calls s ++ [mkCall g msgs [] ph])).
+Proof.
+  unfold call_admissible; intros s g msgs ph H N.
+  apply andb_true_iff in H; destruct H as [H H3]; apply andb_true_iff in H; destruct H as [H1 H2].
+  unfold used_ids. rewrite flat_map_app. simpl. rewrite app_nil_r.
+  apply NoDup_app_intro; auto. { apply nodupb_NoDup; auto. }
+  intros x Hx Hin. apply in_map_iff in Hx. destruct Hx as (m & <- & Hm).
+  rewrite forallb_forall in H3. specialize (H3 _ Hm). apply negb_true_iff in H3.
+  assert (existsb (N.eqb (m_id m)) (used_ids (s_calls s)) = true)
+    by (apply existsb_exists; exists (m_id m); split; auto; apply N.eqb_refl).
+  congruence.
+Qed.
+
+Lemma Inv2_assign : forall pws calls J L c cl wg pws' wg' refs,
+  Inv1 pws calls J L -> Inv2 pws calls J -> nth_error calls c = Some cl -> c_ph cl = CEntered ->
+  assign_all cfg pws wg (c_msgs cl) = (pws', wg', refs) ->
+  Inv2 pws' (upd calls c (mkCall (c_g cl) (c_msgs cl) refs CWaiting)) J.
+Proof.
+  intros pws calls J L c cl wg pws' wg' refs I1 (O & D & W & N) Hc Hph E. unfold assign_all in E.
+  assert (Hr0 : c_refs cl = []).
+  { destruct (proj1 (proj2 I1) _ _ Hc) as [_ Ph]. rewrite Hph in Ph. exact Ph. }
+  destruct (fold_assign_own calls _ _ _ _ _ _ _ [] E eq_refl) as [A' Ll].
+  { intros p pw Hp b m Hb Hm. left. eapply W; eauto. }
+  simpl in A'.
+  split; [|split; [|split]].
+  - eapply (fold_assign_allpw (Op J) (length pws)); [| |exact E|lia|exact O].
+    + intros p tp Hp. split; [simpl; contradiction|]. split; [simpl; intros; discriminate|].
+      intros a Ha Hpa. apply D in Ha. lia.
+    + intros p pw m pw' k sp Hop Ho Hadd.
+      destruct (pw_add_spec _ _ _ _ _ Hadd Ho) as (Etp & Eo & Ef & Es & _). eapply Op_sim; eauto.
+  - intros a Ha. apply D in Ha. lia.
+  - intros p pw Hp b m Hb Hm. destruct (A' _ _ Hp _ _ Hb Hm) as [(c0 & cl0 & i & H1 & H2 & H3)|(i & H1 & H2)].
+    + destruct (Nat.eq_dec c c0) as [<-|Ne].
+      * rewrite Hc in H1. inv H1. rewrite Hr0 in H3. exfalso; eapply nth_error_nil; eauto.
+      * exists c0, cl0, i. rewrite nth_error_upd_neq by auto. auto.
+    + exists c, (mkCall (c_g cl) (c_msgs cl) refs CWaiting), i.
+      rewrite nth_error_upd_eq by (apply nth_error_Some; congruence). auto.
+  - erewrite used_ids_upd; eauto.
+Qed.
+
+Definition inv2 (s : state) : Prop := inv1 s /\ Inv2 (s_pws s) (s_calls s) (s_journal s).
+
+Lemma inv2_step : forall s l s', inv2 s -> step cfg s l = Some s' -> inv2 s'.
+Proof.
+  intros s l s' [I1 I2] H. split; [eapply inv1_step; eauto|].
+  unfold inv1 in I1.
+  destruct l; unfold step in H; step_destruct H; inv H;
+    unfold with_pw_done, with_pw, ret_call, add_call; cbn [s_pws s_calls s_journal s_log].
+  1-4: (eapply Inv2_calls; [exact I2|intros; apply owned_snoc; auto|eapply admissible_nodup; eauto; apply I2]).
+  - (* Assign *) eapply Inv2_assign; eauto.
+  - (* Timer *)
+    match goal with E : nth_error (s_pws s) ?p = Some ?pw |- _ =>
+      destruct (timer_pw_sim pw k) as ((T & Al & _) & F & Sn); [apply (proj1 I1 _ _ E)|];
+      eapply (Inv2_upd_gen _ _ _ p pw (timer_pw pw k)); eauto;
+      apply (Op_sim _ _ pw); auto; apply (proj1 I2 _ _ E) end.
+  - (* Get *)
+    match goal with E : nth_error (s_pws s) ?p = Some ?pw, Es : pw_snd ?pw = None, Eq : pw_queue ?pw = _ |- _ =>
+      destruct (proj1 I1 _ _ E) as [W D]; destruct (proj1 I2 _ _ E) as (O1 & O2 & O3);
+      eapply Inv2_upd_gen; eauto;
+      [unfold pw_all; simpl; rewrite Es, Eq; reflexivity|split; [exact O1|split]]; simpl end.
+    + destruct Hok as [_ Hm]. replace (0 <? maxAttempts cfg) with true by (symmetry; apply Nat.ltb_lt; lia).
+      intros b0 n0 ph E0. inv E0. intros a Ha Hp Hk Hseen.
+      destruct (O3 _ Ha Hp) as (b1 & Hb1 & Hk1 & _). unfold fs in Hb1. rewrite Heqo0 in Hb1. simpl in Hb1.
+      rewrite app_nil_r in Hb1. apply in_map_iff in Hb1. destruct Hb1 as ([b2 o2] & <- & Hf). simpl in *.
+      eapply (fin_other_neq p0 b2 o2 b0); eauto; [|congruence].
+      rewrite Heqo0, Heql. simpl. auto.
+    + intros a Ha Hp. destruct (O3 _ Ha Hp) as (b1 & Hb1 & R). exists b1. split; auto.
+      unfold fs in *. simpl. rewrite Heqo0 in Hb1. simpl in Hb1. rewrite app_nil_r in Hb1.
+      apply in_app_iff; auto.
+  - (* SenderExit *)
+    match goal with E : nth_error (s_pws s) ?p = Some ?pw, Es : pw_snd ?pw = None, Eq : pw_queue ?pw = [] |- _ =>
+      eapply Inv2_upd_gen; eauto;
+      [unfold pw_all; simpl; rewrite Es, Eq; reflexivity
+      |apply (Op_sim _ _ pw); simpl; auto; apply (proj1 I2 _ _ E)] end.
+  - (* Attempt *)
+    match goal with E : nth_error (s_pws s) ?p = Some ?pw, Es : pw_snd ?pw = Some _ |- _ =>
+      destruct (proj1 I1 _ _ E) as [W D]; destruct I2 as (O & Dm & Ow & N);
+      split; [|split; [|split; auto]] end.
+    + intros q pwq Hq. apply nth_error_upd in Hq. destruct Hq as [(<- & -> & _)|(Hne & Hq)].
+      * apply Op_attempt_self; auto.
+      * apply Op_snoc_other; auto.
+    + intros a Ha. rewrite upd_length. apply in_app_iff in Ha. destruct Ha as [Ha|[<-|[]]]; auto.
+      simpl. apply nth_error_Some. congruence.
+    + apply allpw_upd; auto. intros b1 m Hb Hm. eapply (Ow _ _ Heqo); eauto.
+      unfold pw_all in *. simpl in Hb. rewrite Heqo0. exact Hb.
+  - (* BackoffDone *)
+    match goal with E : nth_error (s_pws s) ?p = Some ?pw, Es : pw_snd ?pw = Some _ |- _ =>
+      destruct (proj1 I2 _ _ E) as (O1 & O2 & O3);
+      eapply Inv2_upd_gen; eauto;
+      [unfold pw_all; simpl; rewrite Es; reflexivity|split; [exact O1|split]]; simpl end.
+    + intros b0 n0 ph E0. inv E0. apply (O2 _ _ _ Heqo0).
+    + intros a Ha Hp. destruct (O3 _ Ha Hp) as (b1 & Hb1 & R). exists b1. split; auto.
+      unfold fs in *. simpl. rewrite Heqo0 in Hb1. exact Hb1.
+  - (* Finish *)
+    match goal with E : nth_error (s_pws s) ?p = Some ?pw, Es : pw_snd ?pw = Some _ |- _ =>
+      destruct (proj1 I2 _ _ E) as (O1 & O2 & O3);
+      eapply Inv2_upd_gen; eauto;
+      [unfold pw_all; simpl; rewrite Es, map_app; simpl; rewrite <- app_assoc; reflexivity|split; [|split]]; simpl end.
+    + intros b0 o Hb. apply in_app_iff in Hb. destruct Hb as [Hb|[Hb|[]]]; auto.
+      inv Hb. apply (O2 _ _ _ Heqo0).
+    + intros; discriminate.
+    + intros a Ha Hp. destruct (O3 _ Ha Hp) as (b1 & Hb1 & R). exists b1. split; auto.
+      unfold fs in *. simpl. rewrite Heqo0 in Hb1. simpl in Hb1. rewrite map_app, app_nil_r. exact Hb1.
+  - (* Return async *)
+    eapply Inv2_calls; [exact I2|intros; eapply owned_upd; eauto|erewrite used_ids_upd; eauto; apply I2].
+  - eapply Inv2_calls; [exact I2|intros; eapply owned_upd; eauto|erewrite used_ids_upd; eauto; apply I2].
+  - eapply Inv2_calls; [exact I2|intros; eapply owned_upd; eauto|erewrite used_ids_upd; eauto; apply I2].
+  - (* CloseMark *)
+    destruct I2 as (O & Dm & Ow & N). split; [|split; [|split; auto]].
+    + intros p pw' Hp. apply nth_error_map_inv in Hp. destruct Hp as (pw & Hp & ->).
+      destruct (close_pw_sim pw (proj1 (proj1 I1 _ _ Hp))) as ((T & _) & F & Sn).
+      apply (Op_sim _ _ pw); auto.
+    + intros a Ha. rewrite map_length. auto.
+    + intros p pw' Hp. apply nth_error_map_inv in Hp. destruct Hp as (pw & Hp & ->).
+      destruct (close_pw_sim pw (proj1 (proj1 I1 _ _ Hp))) as ((T & Al & _) & F & Sn).
+      intros b m Hb Hm. rewrite Al in Hb. eapply Ow; eauto.
+  - exact I2.
+Qed.
+
+Lemma inv2_runs : forall ls s, runs cfg ls s -> inv2 s.
+Proof.
+  apply runs_inv; [|apply inv2_step]. split; [apply inv1_init|].
+  split; [|split; [|split]]; try (intros x y H; simpl in H; exfalso; eapply nth_error_nil; exact H).
+  - intros a H. simpl in H. contradiction.
+  - simpl. constructor.
+Qed.
+
+(* ------------------------------------------------------------------ layer 3: Completion *)
+Definition Cp (compl : list (list msg * option err)) (pw : pwriter) : Prop :=
+  forall b o, In (b,o) (pw_fin pw) -> In (b_msgs b, o) compl.
+Definition Nbp (pw : pwriter) : Prop :=
+  forall b, In b (pw_all pw) -> NoDup (map m_id (b_msgs b)).
+Definition Kb (pws : list pwriter) (compl : list (list msg * option err)) : Prop :=
+  forall ms o, In (ms,o) compl ->
+    exists p pw b, nth_error pws p = Some pw /\ In (b,o) (pw_fin pw) /\ ms = b_msgs b.
+Definition Rj (cl : call) : Prop := rejected cl = true -> c_refs cl = [].
+Definition compl_ids (compl : list (list msg * option err)) : list N :=
+  flat_map (fun ce => map m_id (fst ce)) compl.
+
+Definition Inv3 (pws : list pwriter) (calls : list call) (compl : list (list msg * option err)) : Prop :=
+  allpw (fun _ pw => Cp compl pw /\ Nbp pw) pws /\ Kb pws compl /\
+  allpw (fun _ cl => Rj cl) calls /\ NoDup (compl_ids compl).
+
+Lemma Kb_le : forall pws pws' compl, pws_le pws pws' -> Kb pws compl -> Kb pws' compl.
+Proof.
+  intros pws pws' compl L K ms o H. destruct (K _ _ H) as (p & pw & b & Hp & Hf & E).
+  destruct (L _ _ Hp) as (pw' & Hp' & (_ & (x & Fx) & _)). exists p, pw', b. split; auto. split; auto.
+  rewrite Fx. apply in_app_iff; auto.
+Qed.
+
+Lemma Inv3_upd_gen : forall pws calls compl p pw pw',
+  Inv3 pws calls compl -> nth_error pws p = Some pw -> pw_tp pw' = pw_tp pw ->
+  pw_all pw' = pw_all pw -> pw_fin pw' = pw_fin pw -> Inv3 (upd pws p pw') calls compl.
+Proof.
+  intros pws calls compl p pw pw' (A & K & R & N) Hp T Al F. destruct (A _ _ Hp) as [C Nb].
+  split; [|split; [|split; auto]].
+  - apply allpw_upd; auto. split; [unfold Cp; rewrite F; auto|unfold Nbp; rewrite Al; auto].
+  - eapply Kb_le; eauto. eapply pws_le_upd; eauto. apply pw_le_all; auto.
+    exists []. rewrite app_nil_r; auto.
+Qed.
+
+Lemma Inv3_calls : forall pws calls compl calls',
+  Inv3 pws calls compl -> allpw (fun _ cl => Rj cl) calls' -> Inv3 pws calls' compl.
+Proof. intros pws calls compl calls' (A & K & R & N) R'. split; [|split; [|split]]; auto. Qed.
+
+Lemma assign_one_nb : forall pws wg refs m pws' wg' refs',
+  assign_one cfg (pws,wg,refs) m = (pws',wg',refs') ->
+  (forall q pwq b x, nth_error pws q = Some pwq -> In b (pw_all pwq) -> In x (b_msgs b) -> m_id x <> m_id m) ->
+  allpw (fun _ pw => Nbp pw) pws -> allpw (fun _ pw => Nbp pw) pws'.
+Proof.
+  intros pws wg refs m pws' wg' refs' H Fr A.
+  destruct (assign_one_spec _ _ _ _ _ _ _ H) as (p & k & pw & pw' & sp & pws0 & -> & Hadd & Ho & Ht & H0 & Hnth & ->).
+  assert (A0 : allpw (fun _ pw => Nbp pw) pws0).
+  { destruct H0 as [->| ->]; auto. apply allpw_snoc; auto. intros b Hb. simpl in Hb. contradiction. }
+  assert (Fr0 : forall b x, In b (pw_all pw) -> In x (b_msgs b) -> m_id x <> m_id m).
+  { destruct H0 as [->| ->]; [intros; eapply Fr; eauto|].
+    destruct (Nat.lt_ge_cases p (length pws)).
+    - rewrite nth_error_app1 in Hnth by auto. intros; eapply Fr; eauto.
+    - rewrite nth_error_app2 in Hnth by auto. destruct (p - length pws); simpl in Hnth.
+      + inv Hnth. simpl. contradiction.
+      + exfalso; eapply nth_error_nil; eauto. }
+  apply allpw_upd; auto. pose proof (A0 _ _ Hnth) as Nb.
+  destruct (pw_add_spec _ _ _ _ _ Hadd Ho) as (_ & _ & _ & _ & [(l & b & E1 & E2 & Ek & En)|(E2 & Ek & En)]).
+  - intros b' Hb. rewrite E2 in Hb. apply in_app_iff in Hb. destruct Hb as [Hb|[<-|[]]].
+    + apply Nb. rewrite E1. apply in_app_iff; auto.
+    + assert (Hbin : In b (pw_all pw)) by (rewrite E1; apply in_app_iff; simpl; auto).
+      simpl. rewrite map_app. simpl. apply NoDup_snoc; [apply Nb; auto|].
+      intros Hin. apply in_map_iff in Hin. destruct Hin as (x & Ex & Hx). eapply Fr0; eauto.
+  - intros b' Hb. rewrite E2 in Hb. apply in_app_iff in Hb. destruct Hb as [Hb|[<-|[]]].
+    + apply Nb; auto.
+    + simpl. constructor; [simpl; auto|constructor].
+Qed.
+
+Lemma fold_assign_nb : forall calls c cl, nth_error calls c = Some cl -> c_refs cl = [] ->
+  NoDup (used_ids calls) ->
+  forall ms pws wg refs pws' wg' refs' done,
+  fold_left (assign_one cfg) ms (pws,wg,refs) = (pws',wg',refs') -> length refs = length done ->
+  c_msgs cl = done ++ ms ->
+  allpw (OwnF calls done refs) pws -> allpw (fun _ pw => Nbp pw) pws -> allpw (fun _ pw => Nbp pw) pws'.
+Proof.
+  intros calls c cl Hc Hr0 N.
+  induction ms; intros pws wg refs pws' wg' refs' done H Hl Hm O A; cbn [fold_left] in H.
+  - inv H. auto.
+  - destruct (assign_one cfg (pws,wg,refs) a) as [[pws1 wg1] refs1] eqn:E.
+    pose proof (assign_one_own _ _ _ _ _ _ _ _ _ E Hl O) as O1.
+    assert (L1 : length refs1 = length (done ++ [a])).
+    { destruct (assign_one_spec _ _ _ _ _ _ _ E) as (p & k & pw & pw' & sp & pws0 & -> & _).
+      rewrite !app_length. simpl. lia. }
+    assert (Hma : nth_error (c_msgs cl) (length done) = Some a).
+    { rewrite Hm, nth_error_app2, Nat.sub_diag by lia. reflexivity. }
+    eapply (IHms _ _ _ _ _ _ (done ++ [a])); eauto.
+    + rewrite <- app_assoc. exact Hm.
+    + eapply assign_one_nb; eauto.
+      intros q pwq b x Hq Hb Hx Eid.
+      destruct (O _ _ Hq _ _ Hb Hx) as [(c0 & cl0 & i0 & H1 & H2 & H3)|(i & H1 & H2)].
+      * destruct (ids_unique _ _ _ _ _ _ _ _ _ N H1 Hc H2 Hma Eid) as [-> ->].
+        rewrite Hc in H1. inv H1. rewrite Hr0 in H3. eapply nth_error_nil; eauto.
+      * assert (Hxi : nth_error (c_msgs cl) i = Some x).
+        { rewrite Hm, nth_error_app1; auto. apply nth_error_Some. congruence. }
+        destruct (ids_unique _ _ _ _ _ _ _ _ _ N Hc Hc Hxi Hma Eid) as [_ ->].
+        assert (length done < length done) by (apply nth_error_Some; congruence). lia.
+Qed.
+
+Lemma Inv3_assign : forall pws calls J L compl c cl wg pws' wg' refs,
+  Inv1 pws calls J L -> Inv2 pws calls J -> Inv3 pws calls compl ->
+  nth_error calls c = Some cl -> c_ph cl = CEntered ->
+  assign_all cfg pws wg (c_msgs cl) = (pws', wg', refs) ->
+  Inv3 pws' (upd calls c (mkCall (c_g cl) (c_msgs cl) refs CWaiting)) compl.
+Proof.
+  intros pws calls J L compl c cl wg pws' wg' refs I1 (O & D & W & N) (A & K & R & Nc) Hc Hph E.
+  unfold assign_all in E.
+  assert (Hr0 : c_refs cl = []).
+  { destruct (proj1 (proj2 I1) _ _ Hc) as [_ Ph]. rewrite Hph in Ph. exact Ph. }
+  destruct (fold_assign_refs _ _ _ _ _ _ _ [] E eq_refl) as (_ & _ & Le).
+  { intros i r Hi. destruct i; discriminate. }
+  split; [|split; [|split; auto]].
+  - assert (A1 : allpw (fun _ pw => Cp compl pw) pws').
+    { eapply (fold_assign_allpw (fun _ pw => Cp compl pw) 0); [| |exact E|lia|].
+      + intros p tp _ b o Hb. simpl in Hb. contradiction.
+      + intros p pw m pw' k sp Hop Ho Hadd.
+        destruct (pw_add_spec _ _ _ _ _ Hadd Ho) as (Etp & Eo & Ef & Es & _).
+        unfold Cp. rewrite Ef. exact Hop.
+      + intros p pw Hp. apply (A _ _ Hp). }
+    assert (A2 : allpw (fun _ pw => Nbp pw) pws').
+    { eapply (fold_assign_nb calls c cl Hc Hr0 N _ _ _ _ _ _ _ [] E eq_refl); auto.
+      + intros p pw Hp b m Hb Hm. left. eapply W; eauto.
+      + intros p pw Hp. apply (A _ _ Hp). }
+    intros p pw Hp. split; [apply (A1 _ _ Hp)|apply (A2 _ _ Hp)].
+  - eapply Kb_le; eauto.
+  - apply allpw_upd; auto. intros Hrej. simpl in Hrej. discriminate.
+Qed.
+
+Definition inv3 (s : state) : Prop := inv2 s /\ Inv3 (s_pws s) (s_calls s) (s_compl s).
+
+Lemma inv3_step : forall s l s', inv3 s -> step cfg s l = Some s' -> inv3 s'.
+Proof.
+  intros s l s' [I12 I3] H. split; [eapply inv2_step; eauto|].
+  destruct I12 as [I1 I2]. unfold inv1 in I1.
+  destruct l; unfold step in H; step_destruct H; inv H;
+    unfold with_pw_done, with_pw, ret_call, add_call; cbn [s_pws s_calls s_journal s_log s_compl].
+  1-4: (eapply Inv3_calls; [exact I3|]; apply allpw_snoc; [apply I3|intros _; reflexivity]).
+  - (* Assign *) eapply Inv3_assign; eauto.
+  - (* Timer *)
+    match goal with E : nth_error (s_pws s) ?p = Some ?pw |- _ =>
+      destruct (timer_pw_sim pw k) as ((T & Al & _) & F & Sn); [apply (proj1 I1 _ _ E)|];
+      eapply (Inv3_upd_gen _ _ _ p pw (timer_pw pw k)); eauto end.
+  - (* Get *)
+    match goal with E : nth_error (s_pws s) ?p = Some ?pw, Es : pw_snd ?pw = None, Eq : pw_queue ?pw = _ |- _ =>
+      eapply Inv3_upd_gen; eauto; unfold pw_all; simpl; rewrite Es, Eq; reflexivity end.
+  - (* SenderExit *)
+    match goal with E : nth_error (s_pws s) ?p = Some ?pw, Es : pw_snd ?pw = None, Eq : pw_queue ?pw = [] |- _ =>
+      eapply Inv3_upd_gen; eauto; unfold pw_all; simpl; rewrite Es, Eq; reflexivity end.
+  - (* Attempt *)
+    match goal with E : nth_error (s_pws s) ?p = Some ?pw, Es : pw_snd ?pw = Some _ |- _ =>
+      eapply Inv3_upd_gen; eauto; unfold pw_all; simpl; rewrite Es; reflexivity end.
+  - (* BackoffDone *)
+    match goal with E : nth_error (s_pws s) ?p = Some ?pw, Es : pw_snd ?pw = Some _ |- _ =>
+      eapply Inv3_upd_gen; eauto; unfold pw_all; simpl; rewrite Es; reflexivity end.
+  - (* Finish *)
+    rename sd_batch into b, sd_att into n. rename Heqo into Hp, Heqo0 into Hs.
+    destruct I3 as (A & K & R & Nc). destruct (A _ _ Hp) as [C Nb].
+    destruct (proj1 I1 _ _ Hp) as [W _]. destruct I2 as (O & Dm & Ow & N).
+    assert (Hall : pw_all (mkPw (pw_tp p0) (pw_open p0) (pw_nb p0) (pw_fin p0 ++ [(b, e)]) None
+                      (pw_queue p0) (pw_curr p0) (pw_alive p0) (pw_await p0)) = pw_all p0).
+    { unfold pw_all; simpl; rewrite Hs, map_app; simpl; rewrite <- app_assoc; reflexivity. }
+    assert (Hbin : In b (pw_all p0)).
+    { unfold pw_all. rewrite Hs. simpl. apply in_app_iff. right. simpl. auto. }
+    split; [|split; [|split; auto]].
+    + intros q pwq Hq. apply nth_error_upd in Hq. destruct Hq as [(<- & -> & _)|(Hne & Hq)].
+      * split.
+        -- intros b0 o Hb. simpl in Hb. apply in_app_iff in Hb. apply in_app_iff.
+           destruct Hb as [Hb|[Hb|[]]]; [left; apply C; auto|right; inv Hb; simpl; auto].
+        -- unfold Nbp. rewrite Hall. exact Nb.
+      * destruct (A _ _ Hq) as [Cq Nq]. split; auto. intros b0 o Hb. apply in_app_iff. left. apply Cq; auto.
+    + intros ms o Hin. apply in_app_iff in Hin. destruct Hin as [Hin|[Hin|[]]].
+      * eapply Kb_le; [|exact K|exact Hin]. eapply pws_le_upd; eauto. apply pw_le_all; auto.
+        simpl. eexists; reflexivity.
+      * inv Hin. eexists p, _, b. rewrite nth_error_upd_eq by (apply nth_error_Some; congruence).
+        split; [reflexivity|]. simpl. split; auto. apply in_app_iff. simpl. auto.
+    + unfold compl_ids. rewrite flat_map_app. simpl. rewrite app_nil_r.
+      apply NoDup_app_intro; auto.
+      intros x Hx Hin. apply in_map_iff in Hx. destruct Hx as (m & <- & Hm).
+      apply in_flat_map in Hin. destruct Hin as ([ms o] & Hce & Hmi). simpl in Hmi.
+      apply in_map_iff in Hmi. destruct Hmi as (m' & Eid & Hm').
+      destruct (K _ _ Hce) as (p' & pw' & b' & Hp' & Hf' & ->).
+      assert (Hb'in : In b' (pw_all pw')).
+      { unfold pw_all. apply in_app_iff. left. apply in_map_iff. exists (b',o); auto. }
+      destruct (one_batch _ _ _ _ _ _ _ _ _ _ Ow N Hp' Hb'in Hm' Hp Hbin Hm Eid) as [-> Ek].
+      rewrite Hp in Hp'. inv Hp'.
+      eapply (fin_other_neq pw' b' o b); eauto. rewrite Hs. simpl. auto.
+  - (* Return async *)
+    eapply Inv3_calls; [exact I3|]. apply allpw_upd; [apply I3|]. intros Hrej. simpl in Hrej. discriminate.
+  - eapply Inv3_calls; [exact I3|]. apply allpw_upd; [apply I3|]. intros Hrej. unfold rejected in Hrej. simpl in Hrej.
+    match type of Hrej with context[forallb is_none ?es] => destruct (forallb is_none es) end; discriminate.
+  - eapply Inv3_calls; [exact I3|]. apply allpw_upd; [apply I3|]. intros Hrej. simpl in Hrej. discriminate.
+  - (* CloseMark *)
+    destruct I3 as (A & K & R & Nc). split; [|split; [|split; auto]].
+    + intros p pw' Hp. apply nth_error_map_inv in Hp. destruct Hp as (pw & Hp & ->).
+      destruct (close_pw_sim pw (proj1 (proj1 I1 _ _ Hp))) as ((T & Al & _) & F & Sn).
+      destruct (A _ _ Hp) as [C Nb]. split; [unfold Cp; rewrite F; auto|unfold Nbp; rewrite Al; auto].
+    + eapply Kb_le; [|exact K]. intros p pw Hp. exists (close_pw pw). split; [apply map_nth_error; auto|].
+      destruct (close_pw_sim pw (proj1 (proj1 I1 _ _ Hp))) as (S & F & Sn).
+      apply pw_sim_le; auto. exists []. rewrite app_nil_r; auto.
+  - exact I3.
+Qed.
+
+Lemma inv3_runs : forall ls s, runs cfg ls s -> inv3 s.
+Proof.
+  apply runs_inv; [|apply inv3_step]. split.
+  - split; [apply inv1_init|].
+    split; [|split; [|split]]; try (intros x y H; simpl in H; exfalso; eapply nth_error_nil; exact H).
+    + intros a H. simpl in H. contradiction.
+    + simpl. constructor.
+  - split; [|split; [|split]]; try (intros x y H; simpl in H; exfalso; eapply nth_error_nil; exact H).
+    + intros ms o H. simpl in H. contradiction.
+    + simpl. constructor.
+Qed.
+
+Lemma fin_facts : forall s p pw b o m,
+  inv1 s -> Inv2 (s_pws s) (s_calls s) (s_journal s) ->
+  nth_error (s_pws s) p = Some pw -> In (b,o) (pw_fin pw) -> In m (b_msgs b) ->
+  (forall a, In a (s_journal s) -> In m (a_msgs a) -> a_pw a = p /\ a_k a = b_k b) /\
+  (forall a, In a (s_journal s) -> a_pw a = p -> a_k a = b_k b -> In m (a_msgs a)) /\
+  last_attempt_seen s m o /\
+  (forall a, In a (s_journal s) -> In m (a_msgs a) -> a_seen a = None -> o = None).
+Proof.
+  intros s p pw b o m (A & B & C) (O & Dm & Ow & N) Hp Hf Hm.
+  assert (Hb : In b (pw_all pw)).
+  { unfold pw_all. apply in_app_iff. left. apply in_map_iff. exists (b,o); auto. }
+  assert (X : forall a, In a (s_journal s) -> In m (a_msgs a) -> a_pw a = p /\ a_k a = b_k b).
+  { intros a Ha Hma. pose proof (Dm _ Ha) as Hlt. apply nth_error_Some in Hlt.
+    destruct (nth_error (s_pws s) (a_pw a)) as [pwa|] eqn:Epa; [|congruence].
+    destruct (O _ _ Epa) as (_ & _ & O3). destruct (O3 _ Ha eq_refl) as (ba & Hba & Hka & Hms & _).
+    rewrite Hms in Hma. apply fs_all in Hba.
+    destruct (one_batch _ _ _ _ _ _ _ _ _ _ Ow N Epa Hba Hma Hp Hb Hm eq_refl) as [E1 E2].
+    split; congruence. }
+  assert (Y : forall a, In a (s_journal s) -> a_pw a = p -> a_k a = b_k b -> In m (a_msgs a)).
+  { intros a Ha Hpa Hka. destruct (O _ _ Hp) as (_ & _ & O3).
+    destruct (O3 _ Ha Hpa) as (ba & Hba & Hkb & Hms & _). apply fs_all in Hba.
+    destruct (A _ _ Hp) as [(W1 & W2 & W3) _].
+    assert (ba = b) by (eapply (nodup_key_eq _ b_k); eauto; congruence). subst ba.
+    rewrite Hms. exact Hm. }
+  destruct (O _ _ Hp) as (O1 & _ & _). destruct (O1 _ _ Hf) as [(j1 & a0 & j2 & EJ & H1 & H2 & H3 & H4) Hno].
+  split; auto. split; auto. split.
+  - exists j1, a0, j2. split; auto. split.
+    + apply Y; auto. rewrite EJ. apply in_app_iff. simpl. auto.
+    + split; auto. intros a' Ha' Hma'. apply (H4 _ Ha'). apply X; auto.
+      rewrite EJ. apply in_app_iff. simpl. auto.
+  - intros a Ha Hma Hs. destruct o as [e|]; auto. exfalso.
+    destruct (X _ Ha Hma) as [E1 E2]. eapply (Hno e eq_refl a); eauto.
+Qed.
+
 Lemma finished_ref : forall J pws ms refs i r o,
   allpw (fun _ pw => pw_wf pw /\ Dp J pw) pws -> refs_ok pws ms refs ->
   nth_error refs i = Some r -> batch_result pws r = Some o ->
@@ -694,8 +1338,8 @@ Proof.
   - destruct (IH H) as (i & e & Hi). exists (S i), e. exact Hi.
 Qed.
 
-(* everything of stmt_C01_write_errors_exact except: acked_attempt -> o = None, and
-   last_attempt_seen *)
+(* weaker form kept for reference (superseded by C01_write_errors_exact_proof below): needs
+   layer 1 only *)
 Lemma C01_write_errors_exact_partial_proof :
   forall cfg ls s, cfg_ok cfg -> runs cfg ls s ->
   forall c cl we, nth_error (s_calls s) c = Some cl -> c_ph cl = CReturned (RWriteErrors we) ->
@@ -712,3 +1356,57 @@ Proof.
   destruct (A _ _ Hp) as [W [D1 D2]]. destruct (D1 _ Hfin) as (a & Ha1 & Ha2 & Ha3 & Ha4 & Ha5).
   exists a. rewrite Ha4, Ha5. auto 10.
 Qed.
+
+Lemma C01_write_errors_exact_proof : stmt_C01_write_errors_exact.
+Proof.
+  intros cfg ls s Hok Hr c cl we Hc Hph.
+  destruct (we_entry cfg ls s Hok Hr c cl we Hc Hph) as (Hl & Hf & He).
+  split; auto. split; [apply forallb_is_none_false; auto|].
+  intros i m o Hi Ho. destruct (He _ _ _ Hi Ho) as (p & pw & b & Er & Hp & Ht & Hfin & Hin).
+  destruct (inv2_runs cfg Hok _ _ Hr) as [I1 I2].
+  destruct (fin_facts cfg _ _ _ _ _ _ I1 I2 Hp Hfin Hin) as (_ & _ & Hlast & Hack).
+  split; auto. split.
+  - intros ->. destruct I1 as (A & B & C).
+    destruct (A _ _ Hp) as [W [D1 D2]]. destruct (D1 _ Hfin) as (a & Ha1 & Ha2 & Ha3 & Ha4 & Ha5).
+    exists a. rewrite Ha4, Ha5. auto 10.
+  - intros (a & Ha & _ & Hs & Hm & _). eapply Hack; eauto.
+Qed.
+
+Print Assumptions C01_write_errors_exact_proof.
+
+Lemma C01_completion_once_proof : stmt_C01_completion_once.
+Proof.
+  intros cfg ls s Hok Hr.
+  destruct (inv3_runs cfg Hok _ _ Hr) as [[I1 I2] (A3 & K & R & Nc)].
+  split; [exact Nc|]. split.
+  - intros ms o m Hin Hm. destruct (K _ _ Hin) as (p & pw & b & Hp & Hf & ->).
+    destruct (fin_facts cfg _ _ _ _ _ _ I1 I2 Hp Hf Hm) as (_ & _ & Hlast & _). split; auto.
+    destruct I2 as (O & Dm & Ow & N).
+    assert (Hb : In b (pw_all pw)).
+    { unfold pw_all. apply in_app_iff. left. apply in_map_iff. exists (b,o); auto. }
+    destruct (Ow _ _ Hp _ _ Hb Hm) as (c & cl & i & Hc & Hmi & Hri).
+    exists c, cl. split; auto. split; [|eapply nth_error_In; eauto].
+    destruct (rejected cl) eqn:Erj; auto. rewrite (R _ _ Hc Erj) in Hri.
+    exfalso; eapply nth_error_nil; eauto.
+  - intros Ha c cl Hc. split.
+    + intros Hph m Hm. destruct I1 as (A & B & C).
+      destruct (B _ _ Hc) as [Rf Ph]. rewrite Hph in Ph. destruct Ph as [Hl He].
+      destruct (He Ha) as (es & E1 & E2).
+      apply In_nth_error in Hm. destruct Hm as (i & Hi).
+      assert (Hlt : i < length (c_refs cl)) by (rewrite Hl; apply nth_error_Some; congruence).
+      destruct (nth_error (c_refs cl) i) as [r|] eqn:Er; [|apply nth_error_None in Er; lia].
+      destruct (all_results_nth _ _ _ E1) as [Le N]. destruct (N _ _ Er) as (o & Ho & Hb).
+      assert (o = None).
+      { apply nth_error_In in Ho. rewrite forallb_forall in E2. specialize (E2 _ Ho).
+        destruct o; [discriminate|auto]. }
+      subst o.
+      destruct (finished_ref cfg _ _ _ _ _ _ _ A Rf Er Hb) as (m' & pw & b & Hm' & Hp & Ht & Hf & Hk & Hin).
+      rewrite Hi in Hm'. inv Hm'. destruct (A3 _ _ Hp) as [Cc _].
+      exists (b_msgs b). split; auto.
+    + intros we Hph i m o Hi Ho.
+      destruct (we_entry cfg ls s Hok Hr c cl we Hc Hph) as (_ & _ & He).
+      destruct (He _ _ _ Hi Ho) as (p & pw & b & _ & Hp & _ & Hfin & Hin).
+      destruct (A3 _ _ Hp) as [Cc _]. exists (b_msgs b). split; auto.
+Qed.
+
+Print Assumptions C01_completion_once_proof.
